@@ -504,6 +504,9 @@ func (x *Exec) doRun(op Op) (*StepRecord, error) {
 	if err != nil {
 		return nil, err
 	}
+	if run.Sched.Clock != "" {
+		x.Env.Stats.Add("fault/simulated-clock/"+run.Sched.Clock, 1)
+	}
 	second := ""
 	if run.SecondContext {
 		tmp, err := x.Env.NewWorld()
